@@ -16,6 +16,21 @@ import (
 
 func genC05(t *rapid.T) Scenario {
 	sc := Scenario{N: 2, ZeroHigher: rapid.Bool().Draw(t, "zeroHigher")}
+	if rapid.IntRange(0, 7).Draw(t, "slowGoodbye") == 0 {
+		// the connection is lost while the applications are slow in taking note of it: the hubs redial
+		// and complete the next connection while a disconnect notification is still being delivered
+		sc.SlowDiscMs = []int{rapid.SampledFrom([]int{0, 900, 1600}).Draw(t, "sd0"), rapid.SampledFrom([]int{900, 1600}).Draw(t, "sd1"), 0}
+		if rapid.Bool().Draw(t, "sdSwap") {
+			sc.SlowDiscMs[0], sc.SlowDiscMs[1] = sc.SlowDiscMs[1], sc.SlowDiscMs[0]
+		}
+		sc.Ops = []HubOp{{K: "register", X: 0, Y: 1}, {K: "register", X: 1, Y: 0}, {K: "appear", X: 0, Y: 1}, {K: "appear", X: 1, Y: 0, WaitMs: 1300}}
+		for i, n := 0, rapid.IntRange(1, 3).Draw(t, "nLoss"); i < n; i++ {
+			x := rapid.IntRange(0, 1).Draw(t, "lx")
+			sc.Ops = append(sc.Ops, HubOp{K: rapid.SampledFrom([]string{"cut", "cut", "disconnect"}).Draw(t, "loss"), X: x, Y: 1 - x, Conc: true},
+				HubOp{K: "cut", X: 1 - x, Y: x, WaitMs: rapid.SampledFrom([]int{400, 1200, 2500}).Draw(t, "lw")})
+		}
+		return sc
+	}
 	if rapid.IntRange(0, 5).Draw(t, "deniedFirst") == 0 {
 		// x asks first; y has no user interface open and denies at once; while the denied connection
 		// still lingers (about a second) y's user registers x as well
@@ -66,6 +81,12 @@ func genC05(t *rapid.T) Scenario {
 	if rapid.IntRange(0, 3).Draw(t, "noWait") == 0 {
 		sc.NoWait = []bool{rapid.Bool().Draw(t, "noWait0"), rapid.Bool().Draw(t, "noWait1"), false}
 	}
+	// sometimes an application is slow in taking note of a lost connection (the other hub redials meanwhile),
+	// sometimes the devices spell their SKI in upper case in their TXT records
+	if rapid.IntRange(0, 3).Draw(t, "slowDisc") == 0 {
+		sc.SlowDiscMs = []int{rapid.SampledFrom([]int{0, 600, 1500}).Draw(t, "slowDisc0"), rapid.SampledFrom([]int{0, 600, 1500}).Draw(t, "slowDisc1"), 0}
+	}
+	sc.UpperSkiTxt = rapid.IntRange(0, 4).Draw(t, "upperSkiTxt") == 0
 	// sometimes the application's logger is slow for certain lines, or a link is slow (schedules)
 	sc.SlowLog = genSlowLog(t, sc.N)
 	if ms := rapid.SampledFrom([]int{0, 0, 0, 200, 700}).Draw(t, "slowLink"); ms > 0 {
